@@ -439,7 +439,7 @@ func init() {
 			{"R23", R23},
 		},
 		LevelText: "Proof by exhaustive static obligation discharge: one obligation per package-level variable (and per init-only singleton type); each is discharged when no write rooted at it is reachable outside package initialisers in the SSA of the whole library. If all are discharged, two instances share no mutable library memory, hence no data race on library state and no cross-instance interference, for every schedule - which no finite set of interleavings can show.",
-		Technique: "who-may-write analysis over SSA: global-rooted store/map-update/append/copy sites, interprocedural write-through parameter summaries (fixpoint), init-only singleton receiver immutability, type-based leak rule",
+		Technique: "who-may-write analysis over SSA: global-rooted store/map-update/append/copy sites, interprocedural write-through parameter summaries (fixpoint), init-only singleton receiver immutability, type-based leak rule; receiver-immutability of cached unfolder objects in every method that runs at event time",
 		DesignRef: "DESIGN.md section 2 R17, section 3 C19",
 	})
 }
